@@ -23,9 +23,10 @@ RULES = {
     "R7": "nothing derived from a passed generator is stored on self / cls / a module global by a stateless randomised operation",
     "R9": "the seeded generator is installed on the model unconditionally before the chain's first step (C17.R1 run here): a set_rng that runs only when the model has no generator yet leaves a refit / a second chain drawing from the previous call's generator",
     "R10": "the population of every positional draw (choice / permutation / shuffle of a generator) has an input-determined order: no set of names enumerated in hash order",
+    "R11": "the randomised scoring step leaves its inputs as they were: no function of scoring.gaussian_dbal writes into an array it did not allocate, so a second call on the same inputs and an equally seeded generator repeats the first (C05.R15 run here)",
     "R8": "a seed of 0 is a seed: no seeding constructor receives None (OS entropy) when the seed value is falsy",
 }
-MIN = {"R1": 1, "R2": 3, "R3": 20, "R4": 3, "R5": 4, "R6": 1, "R7": 10, "R8": 5, "R9": 2, "R10": 8}
+MIN = {"R11": 6, "R1": 1, "R2": 3, "R3": 20, "R4": 3, "R5": 4, "R6": 1, "R7": 10, "R8": 5, "R9": 2, "R10": 8}
 TRUSTED = ["numpy Generator methods are deterministic functions of the generator state", "import aliases resolved from module-level imports"]
 TECHNIQUE = "resolved-callee who-may-call rule (API allow-list), parameter-threading check over the call graph, def-use of the stored generator"
 LEVEL_TEXT = ("Determinism in (inputs, generator) is a discipline visible in the code: every draw must come from the "
@@ -545,7 +546,14 @@ def r9(ctx):
     ctx.borrow(C17.r1_order, "R9")
 
 
-RULE_FUNCS = [r1, r2, r3, r4, r5, r6, r7, r8, r9, r10]
+def r11(ctx):
+    """`deterministic in its inputs` across calls: a scoring function that writes into its inputs (the caller's NaN padding replaced in place, a
+    plate's selection vector widened) gives a different result the second time it is handed the same arrays (C05.R15 run here)"""
+    from . import C05
+    ctx.borrow(C05.r15, "R11")
+
+
+RULE_FUNCS = [r1, r2, r3, r4, r5, r6, r7, r8, r9, r10, r11]
 
 
 def _rep(a, b):
